@@ -63,6 +63,7 @@ type c03Gen struct {
 	allowLoopDecl  bool // x := e (and calls, which declare with :=) in a loop body
 	small          bool
 	fewWide        bool // quick tier: widths above 64 are rarer (compile time)
+	deadAlways     bool // every return is followed by dead code
 }
 
 func (g *c03Gen) newVar(name string) *c03Var {
@@ -440,6 +441,23 @@ func (g *c03Gen) retStmt() *c03Stmt {
 	s := &c03Stmt{tag: c03SReturn}
 	for _, rt := range g.fn.rets {
 		s.es = append(s.es, g.expr(rt, 2))
+	}
+	// dead tail: statements after the return in the same block (assignments to
+	// visible variables, another return with other values).  Unreachable in
+	// the reference semantics whatever the compiler options are.
+	if g.deadAlways || g.r.Intn(4) == 0 {
+		vs := g.varsOf(func(gv c03GV) bool { return !gv.cst && gv.t.scalar() })
+		for k := g.r.Range(0, 2); k > 0 && len(vs) > 0; k-- {
+			gv := vs[g.r.Intn(len(vs))]
+			s.dead = append(s.dead, &c03Stmt{tag: c03SAssign, v: gv.v, t: gv.t, e: g.expr(gv.t, 2)})
+		}
+		if len(s.dead) == 0 || g.r.Bool() {
+			r2 := &c03Stmt{tag: c03SReturn}
+			for _, rt := range g.fn.rets {
+				r2.es = append(r2.es, g.expr(rt, 2))
+			}
+			s.dead = append(s.dead, r2)
+		}
 	}
 	return s
 }
@@ -898,6 +916,8 @@ func c03Generate(r *RNG, class string, small, fewWide bool) *c03Prog {
 		g.allowLitLeft = true
 	case "loopdecl":
 		g.allowLoopDecl = true
+	case "deadtail":
+		g.deadAlways = true
 	}
 	// type pool: bool + 2..4 integer types, at least one unsigned
 	g.pool = []*c03Ty{c03Bool}
@@ -966,7 +986,63 @@ func (*c03Buf) Close() error { return nil }
 
 var c03DevNull, _ = os.OpenFile(os.DevNull, os.O_WRONLY, 0)
 
-func c03Compile(src string) (res c03Compiled) {
+// c03Opt is a combination of compiler options that are not supposed to
+// change the meaning of a program (utils.Params; notes/C03-findings.md lists
+// which fields are covered).
+type c03Opt struct {
+	name string
+	set  func(p *utils.Params)
+}
+
+type c03Discard struct{}
+
+func (c03Discard) Write(b []byte) (int, error) { return len(b), nil }
+func (c03Discard) Close() error                { return nil }
+
+func c03Options(thorough bool) []c03Opt {
+	writers := func(p *utils.Params) {
+		p.SSAOut, p.SSADotOut = c03Discard{}, c03Discard{}
+		p.CircOut, p.CircDotOut, p.CircSvgOut = c03Discard{}, c03Discard{}, c03Discard{}
+		p.CircFormat = "mpclc"
+	}
+	symbols := func(p *utils.Params) {
+		p.SymbolIDs = map[string]int{"a": 7, "b": 3, "main": 1, "x": 0}
+		p.PkgPath = []string{"/nonexistent/pkg", "/tmp"}
+	}
+	opts := []c03Opt{
+		{"Wnone", func(p *utils.Params) { p.Warn.DisableAll() }},
+		{"verbose+diagnostics+writers+errorloc", func(p *utils.Params) {
+			p.Verbose, p.Diagnostics, p.MPCLCErrorLoc = true, true, true
+			writers(p)
+		}},
+		{"prune+symbolids+pkgpath", func(p *utils.Params) {
+			p.OptPruneGates = true
+			symbols(p)
+		}},
+	}
+	if thorough {
+		opts = append(opts,
+			c03Opt{"W-no-unreachable", func(p *utils.Params) { p.Warn.Unreachable = false }},
+			c03Opt{"W-no-returndiff", func(p *utils.Params) { p.Warn.ReturnDiff = false }},
+			c03Opt{"verbose", func(p *utils.Params) { p.Verbose = true }},
+			c03Opt{"diagnostics", func(p *utils.Params) { p.Diagnostics = true }},
+			c03Opt{"errorloc", func(p *utils.Params) { p.MPCLCErrorLoc = true }},
+			c03Opt{"writers", writers},
+			c03Opt{"circout-bristol", func(p *utils.Params) { p.CircOut, p.CircFormat = c03Discard{}, "bristol" }},
+			c03Opt{"prune", func(p *utils.Params) { p.OptPruneGates = true }},
+			c03Opt{"symbolids+pkgpath", symbols},
+			c03Opt{"Wnone+prune+verbose", func(p *utils.Params) {
+				p.Warn.DisableAll()
+				p.OptPruneGates, p.Verbose = true, true
+			}},
+		)
+	}
+	return opts
+}
+
+func c03Compile(src string) (res c03Compiled) { return c03CompileOpt(src, nil) }
+
+func c03CompileOpt(src string, opt *c03Opt) (res c03Compiled) {
 	// the compiler logs diagnostics to os.Stdout
 	saved := os.Stdout
 	os.Stdout = c03DevNull
@@ -980,6 +1056,9 @@ func c03Compile(src string) (res c03Compiled) {
 	params := utils.NewParams()
 	buf := &c03Buf{}
 	params.SSAOut = buf
+	if opt != nil {
+		opt.set(params)
+	}
 	prog, _, err := compiler.New(params).CompileSSA("{data}", strings.NewReader(src), nil)
 	res.listing = buf.String()
 	if err != nil {
@@ -1804,6 +1883,119 @@ func c03MainWidths(p *c03Prog) []int {
 
 // ------------------------------------------------------------------ run
 
+// c03OptSig: what a program does under an option set: the compile-error class,
+// or the circuit outputs on the vectors.
+func c03OptSig(p *c03Prog, vecs [][]*big.Int, opt *c03Opt) (string, string) {
+	return c03OptSigOf(p, vecs, c03CompileOpt(p.src(), opt))
+}
+
+func c03OptSigOf(p *c03Prog, vecs [][]*big.Int, res c03Compiled) (string, string) {
+	if res.err != "" {
+		kind := "compile-error:"
+		if res.panicked {
+			kind = "panic:"
+		}
+		return kind + c03ErrClass(res.err), res.err
+	}
+	ws := c03MainWidths(p)
+	var sb strings.Builder
+	for _, v := range vecs {
+		in := make([]*big.Int, len(v))
+		for k := range v {
+			in[k] = c03Norm(ws[k], v[k])
+		}
+		got, e := c03Compute(res.circ, in)
+		if e != "" {
+			return "compute-error", e
+		}
+		sb.WriteString(c03VecStr(got))
+		sb.WriteByte(';')
+	}
+	return sb.String(), ""
+}
+
+type c03OptReplay struct {
+	Seed      uint64   `json:"seed"`
+	Case      int      `json:"case"`
+	Options   string   `json:"options"`
+	Program   string   `json:"program"`
+	Inputs    string   `json:"inputs,omitempty"`
+	Default   string   `json:"with_default_options"`
+	Variant   string   `json:"with_these_options"`
+	Reference string   `json:"reference,omitempty"`
+	Original  string   `json:"original_program,omitempty"`
+	Features  []string `json:"features"`
+}
+
+// c03OptionSweep: options that are not supposed to change meaning must not
+// change it: under every option set the program compiles iff it compiles
+// with utils.NewParams() (same error class) and the circuit gives the same
+// outputs (compared on a spread of at most 12 of the vectors).
+func c03OptionSweep(c *Ctx, i int, p *c03Prog, vecs [][]*big.Int, def c03Compiled, reported map[string]int) {
+	sub := vecs
+	if len(sub) > 12 {
+		sub = nil
+		for k := 0; k < 12; k++ {
+			sub = append(sub, vecs[k*len(vecs)/12])
+		}
+	}
+	base, _ := c03OptSigOf(p, sub, def) // the compilation with utils.NewParams() made by c03Check
+	for oi, opt := range c03Options(c.Thorough()) {
+		opt := opt
+		// quick tier: warnings-off on every program, the other sets on every third
+		if !c.Thorough() && oi > 0 && i%3 != 0 {
+			continue
+		}
+		sig, _ := c03OptSig(p, sub, &opt)
+		c.Hist("options:" + opt.name)
+		if sig == base {
+			continue
+		}
+		differs := func(q *c03Prog) bool {
+			if fmt.Sprint(c03MainWidths(q)) != fmt.Sprint(c03MainWidths(p)) {
+				return false
+			}
+			b, _ := c03OptSig(q, sub, nil)
+			v, _ := c03OptSig(q, sub, &opt)
+			return b != v
+		}
+		orig := p.src()
+		shr := c03Shrink(p.clone(), differs, c.N(60, 200))
+		b, berr := c03OptSig(shr, sub, nil)
+		v, verr := c03OptSig(shr, sub, &opt)
+		rep := c03OptReplay{Seed: c.Seed, Case: i, Options: opt.name, Program: shr.src(), Original: orig,
+			Default: b + berr, Variant: v + verr, Features: c03Features(shr).list()}
+		kind := "changes-meaning"
+		if strings.HasPrefix(b, "compile-error") != strings.HasPrefix(v, "compile-error") ||
+			strings.HasPrefix(b, "panic") != strings.HasPrefix(v, "panic") {
+			kind = "changes-compile-outcome"
+		} else {
+			bs, vs := strings.Split(b, ";"), strings.Split(v, ";")
+			for k := range sub {
+				if k < len(bs) && k < len(vs) && bs[k] != vs[k] {
+					ws := c03MainWidths(shr)
+					in := make([]*big.Int, len(sub[k]))
+					for j := range in {
+						in[j] = c03Norm(ws[j], sub[k][j])
+					}
+					rep.Inputs = c03VecStr(in)
+					rep.Default, rep.Variant = bs[k], vs[k]
+					rep.Reference = c03VecStr(c03Run(shr, sub[k], nil))
+					break
+				}
+			}
+		}
+		key := "c03:options:" + opt.name + ":" + kind
+		what := fmt.Sprintf("%s under options %s: inputs %s: default options give %s, these options give %s (reference %s)",
+			kind, opt.name, rep.Inputs, rep.Default, rep.Variant, rep.Reference)
+		reported[key]++
+		if reported[key] <= 3 {
+			c.Fail(key, what, rep)
+		}
+		c.Hist("oracle-failure:" + key)
+	}
+}
+
 func runC03(c *Ctx) error {
 	nProg := c.N(150, 5000)
 	nVec := 40
@@ -1817,6 +2009,10 @@ func runC03(c *Ctx) error {
 	}
 	for round := 0; round < c.N(1, 2); round++ {
 		family = append(family, c03StoreFamily(round)...)
+	}
+	// dead code after a return, in every run (fixed seeds): main and callees
+	for k := 0; k < c.N(6, 60); k++ {
+		family = append(family, c03Generate(NewRNG(uint64(0xDEAD0000+k)), "deadtail", false, true))
 	}
 	nProg += len(family)
 	for i := 0; i < nProg; i++ {
@@ -1843,6 +2039,7 @@ func runC03(c *Ctx) error {
 		}
 		vecs := c03Vectors(r.Fork(), c03MainWidths(p), eb, nv)
 		out := c03Check(p, vecs)
+		c03OptionSweep(c, i, p, vecs, out.res, reported)
 		ft := c03Features(p)
 		for _, f := range ft.list() {
 			c.Hist("construct:" + f)
